@@ -367,7 +367,7 @@ func replayLF(raw json.RawMessage) (string, string) {
 const b64alphabet = "ABCDEFGHIJKLMNOPQRSTUVWXYZabcdefghijklmnopqrstuvwxyz0123456789-_"
 
 func TestLongFormAlterations(t *testing.T) {
-	ev.Rule(chkLongForm, "rapid: for a drawn create request, the canonical long-form DID (control: must resolve on an empty store) and alterations: a single character of the encoded segment substituted (drawn position and replacement), a single character of the suffix substituted, one member of suffix data or delta altered / removed / added and re-encoded canonically, the unchanged value in a non-canonical encoding (member order, whitespace, escapes), suffix of another create; oracle: resolves iff canonical, suffix == hash(suffix data), delta matches delta hash; non-trivial = an alteration")
+	ev.Rule(chkLongForm, "rapid: for a drawn create request, the canonical long-form DID (control: must resolve on an empty store) and alterations: a single character of the encoded segment substituted (drawn position and replacement; separately the last character, whose unused trailing bits make several spellings decode to the same bytes), a CR / LF / space / = / tab inserted at a drawn position, a single character of the suffix substituted, one member of suffix data or delta altered / removed / added and re-encoded canonically, the unchanged value in a non-canonical encoding (member order, whitespace, escapes), suffix of another create; oracle: resolves iff canonical, suffix == hash(suffix data), delta matches delta hash; non-trivial = an alteration")
 	ev.Rapid(t, chkLongForm, 500, 5000, func(t *rapid.T) {
 		cr := genCreate(t)
 		good := cr.LongForm(ns)
@@ -375,7 +375,7 @@ func TestLongFormAlterations(t *testing.T) {
 		seg := parts[len(parts)-1]
 		suffix := parts[len(parts)-2]
 		init := map[string]interface{}{"suffixData": cr.SuffixData(), "delta": cr.Delta}
-		variant := rapid.SampledFrom([]string{"control", "segment-char", "segment-char", "suffix-char", "member-altered", "member-removed", "member-added", "non-canonical", "other-suffix", "segment-truncated", "short-delta-hash"}).Draw(t, "variant")
+		variant := rapid.SampledFrom([]string{"control", "segment-char", "segment-char", "suffix-char", "member-altered", "member-removed", "member-added", "non-canonical", "other-suffix", "segment-truncated", "short-delta-hash", "segment-last-char", "segment-last-char", "segment-insert", "segment-insert"}).Draw(t, "variant")
 		c := &LFCase{Code: cr.Code, DID: good, Resolve: true, Note: variant}
 		reenc := func(v interface{}) string { return ns + ":" + suffix + ":" + asm.B64(refjcs.MustCanonicalGo(v)) }
 		switch variant {
@@ -387,6 +387,20 @@ func TestLongFormAlterations(t *testing.T) {
 				r = b64alphabet[(strings.IndexByte(b64alphabet, r)+1)%64]
 			}
 			c.DID = ns + ":" + suffix + ":" + seg[:i] + string(r) + seg[i+1:]
+			c.Resolve = false
+		case "segment-last-char":
+			// the last character carries unused trailing bits: several characters decode to the same bytes
+			r := b64alphabet[rapid.IntRange(0, 63).Draw(t, "char")]
+			if r == seg[len(seg)-1] {
+				r = b64alphabet[(strings.IndexByte(b64alphabet, r)+1)%64]
+			}
+			c.DID = ns + ":" + suffix + ":" + seg[:len(seg)-1] + string(r)
+			c.Resolve = false
+		case "segment-insert":
+			// characters a lenient base64 decoder skips or tolerates
+			i := rapid.IntRange(0, len(seg)).Draw(t, "pos")
+			ins := rapid.SampledFrom([]string{"\r", "\n", "\r\n", " ", "=", "\t"}).Draw(t, "inserted")
+			c.DID = ns + ":" + suffix + ":" + seg[:i] + ins + seg[i:]
 			c.Resolve = false
 		case "segment-truncated":
 			c.DID = ns + ":" + suffix + ":" + seg[:rapid.IntRange(1, len(seg)-1).Draw(t, "cut")]
